@@ -41,6 +41,9 @@ SPEC = dict(
          "password and stored token for 3 mechanisms, login with 5 server offers incl. no <fast/> feature and FAST disabled, success "
          "with/without a new token, failure) plus random sequences to length 17; per op the sent <authenticate/> (mechanism, initial "
          "response, <request-token/>), the stored token (mechanism, secret) and tokenChanged() are compared with the model. "
+         "(e) several SCRAM logins in ONE process over a small pool of (salt, count) pairs with different configured passwords, fresh "
+         "client objects, direct and through both managers, each judged by the reference server holding that login's password "
+         "(the model is per login and pure: the real function must be a function of its arguments; the harness checks it across logins). "
          "A sequence is non-trivial when it yields >= 2 distinct observations. Oracle, independent of the model: reference RFC 5802 "
          "server, RFC 2831 formulas and strict directive parser, RFC 4616 and XEP-0484 messages written in the harness with "
          "QCryptographicHash/QMessageAuthenticationCode/QPasswordDigestor; same password accepted, other password rejected; "
